@@ -190,7 +190,7 @@ func (s *Solver) Check(pc []*Term, extra []*Term, wantModel bool) (SatResult, ma
 	defer func() {
 		d := time.Since(t0).Seconds()
 		s.Stats.Seconds += d
-		if dir := os.Getenv("SYMGO_SLOWLOG"); dir != "" && d > 1.0 {
+		if dir := os.Getenv("SYMGO_SLOWLOG"); dir != "" && d > slowThreshold() {
 			os.WriteFile(fmt.Sprintf("%s/slow-%d-%d.smt2", dir, os.Getpid(), s.Stats.Queries), []byte(dumpQuery(pc, extra)), 0o644)
 		}
 	}()
@@ -541,4 +541,15 @@ func (s *Solver) checkStandalone(pc, extra []*Term) SatResult {
 		}
 	}
 	return res
+}
+
+func slowThreshold() float64 {
+	if v := os.Getenv("SYMGO_SLOWLOG_S"); v != "" {
+		var f float64
+		fmt.Sscanf(v, "%g", &f)
+		if f > 0 {
+			return f
+		}
+	}
+	return 1.0
 }
